@@ -8,6 +8,8 @@ EVERY operation, accepted or rejected.
 from decimal import Decimal
 from fractions import Fraction
 
+import warnings
+
 from ..sim import Sim, Oracle, HarnessError
 from ..canon import D
 from ..ref import frozen_value as FV
@@ -17,6 +19,10 @@ from ..worlds import gmx as G
 from .. import rng as RNG
 
 ID = "C03"
+
+# pandas warns when account-status rows list different wallet tokens (a token the wallet first meets mid-run); the frame it
+# builds is not part of anything C03 looks at
+warnings.filterwarnings("ignore", message=".*sort order is undefined for incomparable objects.*", category=RuntimeWarning)
 
 # ---------------------------------------------------------------------------------------------------- tolerances
 # "wallet rounding dust (1e-5 of a balance it touches)": Asset.sub empties a balance when the requested amount is within
@@ -42,6 +48,7 @@ V2_HOLD_BAND = Fraction(1, 10**9)  # a GM request within 1e-9 of the float holdi
 # operation of a Uniswap pool (and Squeeth buy/sell, which swap in one), relative to the values it moved.
 POOL_PRICE_REL = Fraction(1, 2**52)
 
+ALIAS = {"fz.aave_borrow": "aave.borrow"}  # harness wrappers that issue exactly the named operation
 CONSERVING = {"uni.add_by_tick", "uni.add", "uni.remove", "uni.collect", "uni.remove_all",
               "aave.supply", "aave.withdraw", "aave.borrow", "aave.repay"}
 SWAPS = {"uni.swap", "uni.buy", "uni.sell", "sq.buy_squeeth", "sq.sell_squeeth", "fz.swap_by_from", "fz.swap_by_to"}
@@ -132,7 +139,7 @@ class FrozenOracle(Oracle):
 
     # ------------------------------------------------------------------------------------------------ the checks
     def _check(self, sim, op, outcome, s0, s1):
-        name = op["op"]
+        name = ALIAS.get(op["op"], op["op"])
         ok = outcome["status"] == "ok"
         st = "accepted" if ok else "rejected"
         row = s0.row
@@ -298,7 +305,7 @@ class FrozenOracle(Oracle):
         return fee * val.price(tok, row)
 
     def _check_payout(self, sim, op, outcome, s0, s1, call, detail):
-        name = op["op"]
+        name = ALIAS.get(op["op"], op["op"])
         ok = outcome["status"] == "ok"
         st = "accepted" if ok else "rejected"
         val = self.val
@@ -543,15 +550,15 @@ RULE = (
     "its amounts zero/part/exact/near-one/over/all, wallet balance taken to zero, sign class of the net-value change, state changed) in which the "
     "operation changed state or was rejected"
 )
-BUDGET = {"quick": {"runs": 2600, "wall": 55}, "thorough": {"runs": 60000, "wall": 1100}}
+BUDGET = {"quick": {"runs": 3200, "wall": 55}, "thorough": {"runs": 60000, "wall": 1100}}
 LEVEL = "exploration"
 ASSUMPTIONS = [
     "price-consistent worlds only (DESIGN 2.2): every pool's price column equals the ratio of the two account prices (one account price per pool is derived "
     "from the pool's ticks to 45+ digits, pools form a forest), the Squeeth frame's WETH/OSQTH columns are the account WETH price / its pool's price, GMX "
     "token prices are the account prices, Deribit books satisfy bids <= mark <= asks; 1-minute interval; account quote USD (or the pool's quote token in a "
     "pure single-pool Uniswap world, where account prices are the pool's own)",
-    "wallet rounding dust = 1e-5 x the value (before the operation) of every wallet balance the operation took to exactly zero - the only place the wallet "
-    "rounds (Asset.sub); plus 1e-18 relative to the containers it changed (35-digit Decimal arithmetic) and 4 units of 1e-18 of each token touched",
+    "wallet rounding dust = 1e-5 x the value of the balance right before every wallet subtraction that left exactly zero - the only place the wallet "
+    "rounds (Asset.sub; observed by a per-instance wrapper of Broker.subtract_from_balance); plus 1e-18 relative to the containers it changed (35-digit Decimal arithmetic) and 4 units of 1e-18 of each token touched",
     "valuation is the account's own rule (DESIGN C01) with one exception: oSQTH inside an LP position lent to a Squeeth vault is valued at the pool price like "
     "all other oSQTH, not at the index price nf*TWAP/1e4 the vault uses for its collateral test; moving an LP position in or out of a vault therefore neither "
     "creates nor destroys value here (the reported figure re-bases it; probe reported_rebase_nonzero counts those cases)",
